@@ -533,6 +533,12 @@ def register(M):
     for _nm in ('ord', 'chr', 'hex', 'bin', 'oct', 'ascii'):
         E['builtins.' + _nm] = _pure_builtin(_nm)
 
+    @ext('builtins.vars')
+    def _vars(interp, args, kw, node):
+        if len(args) == 1 and isinstance(args[0], Instance) and interp.class_slots(args[0].cls) is None:
+            return args[0].attrs            # the instance dictionary itself (live)
+        raise AnalysisError('vars() of this object not modelled', node)
+
     @ext('builtins.issubclass')
     def _issubclass(interp, args, kw, node):
         c, ps = args
